@@ -139,6 +139,8 @@ Op(name, c, a, ov, ii, ks, r) ==
 \* in the middle, the rest of the state is meaningless: a canonical dead state
 \* (no successors) is used.
 Finish(e2, k2, o) ==
+  /\ proc = "R"            \* a killed or stopped shell does nothing more
+  /\ Len(h) < MaxH
   /\ h' = Append(h, o)
   /\ IF k2.proc = "R"
      THEN /\ ent' = e2 /\ sys' = k2.sys /\ blk' = k2.blk /\ kp' = k2.kp /\ proc' = "R"
@@ -259,16 +261,16 @@ TakeIf(s) ==
   /\ UNCHANGED init
 
 Next ==
-  /\ proc = "R"
-  /\ Len(h) < MaxH
-  /\ \/ \E c \in Conds, a \in {"D", "I", "C"}, ov \in BOOLEAN : SetAction(c, a, ov)
-     \/ \E c \in Conds : Peek(c)
-     \/ EnableChld \/ EnableTerm \/ DisableTerm \/ EnableStop \/ DisableStop \/ DisableAll
-     \/ \E ii \in (IF Sigs \cap {"INT", "QUIT"} # {} THEN BOOLEAN ELSE {FALSE}),
-           ks \in (IF "TSTP" \in Sigs THEN BOOLEAN ELSE {FALSE}) : EnterSubshell(ii, ks)
-     \/ \E s \in Sigs : Deliver(s) \/ CatchSignal(s) \/ TakeIf(s)
-     \/ Poll
-     \/ Take
+  \/ \E c \in Conds, a \in {"D", "I", "C"}, ov \in BOOLEAN : SetAction(c, a, ov)
+  \/ \E c \in Conds : Peek(c)
+  \/ EnableChld \/ EnableTerm \/ DisableTerm \/ EnableStop \/ DisableStop \/ DisableAll
+  \/ \E ii \in (IF Sigs \cap {"INT", "QUIT"} # {} THEN BOOLEAN ELSE {FALSE}),
+        ks \in (IF "TSTP" \in Sigs THEN BOOLEAN ELSE {FALSE}) : EnterSubshell(ii, ks)
+  \/ \E s \in Sigs : Deliver(s)
+  \/ \E s \in Sigs : CatchSignal(s)
+  \/ \E s \in Sigs : TakeIf(s)
+  \/ Poll
+  \/ Take
 
 Spec == Init /\ [][Next]_vars
 
